@@ -226,7 +226,7 @@ type vfC29Op struct {
 func TestVerif_C29(t *testing.T) {
 	venum.Begin("C29")
 	defer venum.Finish(t)
-	ops := []string{"work", "work2", "close", "delete", "work-as-bob", "work-on-w2", "drain-open", "shutdown", "expire", "open-panic", "open", "delete-as-bob", "work-gone"}
+	ops := []string{"work", "work2", "close", "delete", "work-as-bob", "work-on-w2", "drain-open", "shutdown", "expire", "open-panic", "open", "delete-as-bob", "work-gone", "clear-drain"}
 	nThreads := venum.QT(2, 3)
 	venum.Explore(t, venum.Cfg{Name: "sticky-schedules", PreemptBound: venum.QT(2, 2), Shardable: true, CheckDeterminism: true}, func(x *venum.X) {
 		chosen := make([]string, nThreads)
@@ -266,6 +266,7 @@ func vfC29Scenario(x *venum.X, chosen []string) {
 		var done []vfC29Op
 		var drainedAt, endedAt int
 		endedAt, drainedAt = -1, -1
+		drainStart, clearEnd, clears := -1, -1, 0 // operator ClearDrain calls (the documented idempotent reset)
 		var locksHeld, liveWithClose, deadWithoutClose []string
 		res := vsched.Run(x, vsched.Opts{MaxSteps: 20000, DelayBounded: true}, func() {
 			w = vfC29NewWorld(x)
@@ -301,7 +302,12 @@ func vfC29Scenario(x *venum.X, chosen []string) {
 						rec.resp = w.call(0, "work", 1, "bob", token, false)
 					case "work-on-w2":
 						rec.resp = w.call(1, "work", 1, "alice", token, false)
+					case "clear-drain":
+						clears++
+						w.w[0].DrainHandle().ClearDrain()
+						clearEnd = w.now()
 					case "drain-open":
+						drainStart = w.now()
 						w.w[0].DrainHandle().Drain()
 						drainedAt = w.now()
 						rec.resp = w.call(0, "open", 0, "alice", "", true)
@@ -346,6 +352,11 @@ func vfC29Scenario(x *venum.X, chosen []string) {
 				}
 			}
 		})
+		if clears > 0 && !(clears == 1 && clearEnd >= 0 && drainStart >= 0 && clearEnd < drainStart) {
+			// a ClearDrain that overlaps or follows the Drain legitimately re-opens the server: the
+			// draining clauses only apply when every ClearDrain had returned before Drain was called
+			drainedAt = -1
+		}
 		cls := "C29"
 		if res.Verdict != "" {
 			x.Failf(cls+":"+res.Verdict, "ops=%v: %v", chosen, res.Blocked)
@@ -378,7 +389,7 @@ func vfC29Scenario(x *venum.X, chosen []string) {
 					x.Failf(cls+":lost-while-live:"+d.name, "owner's %s got session_lost although nothing ended the session (ops %v)", d.name, chosen)
 				}
 			case "drain-open":
-				if r.errKind != "server_draining" {
+				if drainedAt >= 0 && r.errKind != "server_draining" {
 					x.Failf(cls+":open-while-draining", "a session was opened after Drain() returned: status=%d ok=%v err=%s/%s", r.status, r.ok, r.errType, r.errKind)
 				}
 			case "delete-as-bob":
